@@ -98,7 +98,12 @@ def _run(ck, hb, quick, replay):
         kd = kinds[n % len(kinds)] if n < len(kinds) else ck.rng.choice(kinds)
         lv = level if (quick or n % 6) else 2
         c = hc.make_case(ck.rng, lv, (kd,))
-        items.append(("model %d (%s)" % (n, c["model"]["info"]["topology"]), c, [motion(ck.rng, 2 * c["R"]) + (1.0, 1.0) for _ in range(nmot)]))
+        trs = [motion(ck.rng, 2 * c["R"]) + (1.0, 1.0) for _ in range(nmot)]
+        if c["model"]["info"].get("seam") or c["model"]["info"].get("kind") in ("split", "capball"):
+            # a pure translation with every component between 1.75 and 3 diameters: coordinate magnitudes change by a large
+            # factor in all three coordinates at once (magnitude-dependent vertex identification, absolute/relative tolerances)
+            d = 2 * c["R"]; trs.append((None, tuple(ck.rng.choice((-1, 1)) * ck.rng.uniform(1.75, 3.0) * d for _ in range(3)), 1.0, 1.0))
+        items.append(("model %d (%s)" % (n, c["model"]["info"]["topology"]), c, trs))
     recs = hc.run_pairs(ck, hb, items, tol=1e-9, stats=stats)
     # 2b. the decision models of Geom/Decisions.v (float instance, extracted) against Geometry::domain / dist_point_geom,
     #     on the generated models and on their first moved copy
